@@ -4,14 +4,19 @@
 pid="$1"; name="${2:-$1}"; wt=/tmp/seed/$name; out=/tmp/seed/out/$name
 [ -s "$out/patch.diff" ] || { echo "$name: no patch"; exit 9; }
 cd "$wt" || exit 9
-git checkout -q -- . ; git apply "$out/patch.diff" || { echo "$name: patch does not apply in worktree"; exit 9; }
+git checkout -q -- .
+wtpatch="$out/patch.diff"
+if ! git apply --check "$wtpatch" 2>/dev/null && [ -s "$out/patch_rebased.diff" ]; then wtpatch="$out/patch_rebased.diff"; fi
+git apply "$wtpatch" || { echo "$name: patch does not apply in worktree"; exit 9; }
 tests=$(PYTHONPATH=$wt/src /venv/bin/python -m pytest -q -p no:cacheprovider --timeout=900 -o addopts="" 2>&1 | tail -1)
 PYTHONPATH=$wt/src timeout 120 /venv/bin/python "$out/demo.py" >/dev/null 2>&1; demo_with=$?
 git checkout -q -- .
 PYTHONPATH=$wt/src timeout 120 /venv/bin/python "$out/demo.py" >/dev/null 2>&1; demo_without=$?
-git apply "$out/patch.diff"
+git apply "$wtpatch"
 echo "$name: tests='$tests' demo_with=$demo_with demo_without=$demo_without"
 cd /verif
+mkdir -p seeded/$name
+[ -s "$out/patch_rebased.diff" ] && cp "$out/patch_rebased.diff" seeded/$name/patch_rebased.diff
 apply="$out/patch.diff"
 # the tree has moved on (fix commits touching the same lines): use the hand-rebased equivalent if there is one
 if ! git -C /repo apply --check "$apply" 2>/dev/null && [ -s "seeded/$name/patch_rebased.diff" ]; then apply="seeded/$name/patch_rebased.diff"; fi
